@@ -270,6 +270,10 @@ def jobs(tier):
         out.append(Job(name=j.name, space=j.space, harness=harness_for(j.harness.factory), bounds=j.bounds, budget_s=j.budget_s,
                        required=j.required, cubes_fn=j.cubes_fn, path_timeout_s=j.path_timeout_s))
     if tier == "quick":
+        fac3 = lambda ch: s2.ArmLoopGen(ch, nested=True)
+        out.append(Job(name="S2-loop-in-nested-branch-arm", space=lambda: (None, [], None), harness=harness_for(fac3),
+                       bounds={"space": "S2-armloop nested in the arm of an enclosing if"}, budget_s=900,
+                       cubes_fn=lambda: s2.enum_prefixes(lambda ch: fac3(ch).program(), 3)))
         fac2 = lambda ch: s2.CtlGen(ch, 3, 2, 2, kinds=["if", "while"], trail="never")
         out.append(Job(name="S2-ctl-c3-t2-if-while-bare", space=lambda: (None, [], None), harness=harness_for(fac2),
                        bounds={"space": "S2-ctl", "compounds<=": 3, "kinds": ["if", "while"], "depth<=": 2, "terminators<=": 2, "marker after a compound": "never"},
